@@ -55,3 +55,25 @@ def programs(check, tier, n=None):
                         out.append({"src": e["variants"][0]["src"], "ver": ver, "used": e["used"]})
         _gen_cache[key] = out
     return clean_programs(tier, check) + [dict(p) for p in _gen_cache[key]]
+
+
+def byte_programs():
+    """valid programs that carry every byte value in places where PHP allows arbitrary bytes: string bodies, comments, inline
+    HTML, heredoc/nowdoc bodies, and (>= 0x80) names.  Sources are not valid UTF-8."""
+    out = []
+    for b in list(range(0x00, 0x20)) + [0x22, 0x27, 0x5c, 0x60, 0x7f] + list(range(0x80, 0x100)):
+        c = bytes([b]).decode("latin-1")
+        sq = c if b not in (0x27, 0x5c) else "\\" + c
+        dq = c if b not in (0x22, 0x5c, 0x24) else "\\" + c
+        parts = ["$a = 'x%sy';" % sq, '$b = "p%sq $a r%s";' % (dq, dq)]
+        if b not in (0x0a, 0x0d):
+            parts.append("// c%s c" % c)
+        parts.append("/* k%sk */ $c = 1;" % c)
+        parts.append("echo <<<EOT\nh%s $a %sz\nEOT;\n" % (dq if b != 0x22 else c, dq if b != 0x22 else c))
+        parts.append("echo <<<'EOT'\nn%sn\nEOT;\n" % c)
+        if b >= 0x80:
+            parts.append("$v%s = f%s(A%s::K, $o->p%s);" % (c, c, c, c))
+        src = "<?php\n" + "\n".join(parts) + "\n?>html %s text\n" % (c if b != 0x3c else "")
+        out.append({"src": src, "ver": "7.4"})
+        out.append({"src": src, "ver": "5.6"})
+    return out
